@@ -136,14 +136,18 @@ CLAIMED = {
     'C18': dict(
         text='Lean theorems over the process-stack model (tasks with context-local stacks, _process_scope, _run_task, call_soon, '
              'launch, re-entrant execute(), kill of a waiting process, children awaited inline in the awaiting task, steps left through '
-             'a BaseException, cancellation of a task at its await point), for every scenario and every order of ticks of any number of '
+             'a BaseException, cancellation of a task at its await point, callbacks scheduled on another process (the creator of the '
+             'running one), callbacks that raise and the callback_excepted hook that then runs after their scope), for every scenario and every order of ticks of any number of '
              'tasks, children and nested executions: C18_current_in_scope (inside step functions, continuations, after every await, '
              'in scheduled callbacks and output hooks, current() is the owning process), C18_scope_restores_self / _others / '
              'C18_scope_restores (a scope exit restores the task\'s stack; code of one task never changes what another task '
              'observes), C18_scope_restores_however_left / C18_inline_await_restores / C18_unwind_well_scoped / '
              'C18_finished_task_left_every_scope (the same when the scope is left by an Interruption, a BaseException or a cancellation, '
-             'at any depth of inline awaits; the awaiting code carries on on the stack it had), C18_scope_assertion_never_fails. The hook clause of the property is NOT proved: it is false of the code '
-             '(lifecycle hooks fired by transition_to, the constructor and close() run outside _process_scope) and is a recorded '
+             'at any depth of inline awaits; the awaiting code carries on on the stack it had), C18_callback_on_creator_in_scope / '
+             'C18_callback_task_inherits_scheduling_context / C18_callback_excepted_sees_previous (a callback runs with the process it was '
+             'scheduled on current, on top of the stack of the code that scheduled it, whoever that was; what runs in its task after its '
+             'scope observes exactly what the scheduling code observed), C18_scope_assertion_never_fails. The hook clause of the property is NOT proved: it is false of the code '
+             '(lifecycle hooks fired by transition_to, the constructor and close(), and callback_excepted, run outside _process_scope) and is a recorded '
              'finding F14 (C18_witness_hook_outside_scope, C18_full_false; the check prints KNOWN-FINDING); the proved statement is '
              'C18_current_in_scope_partial, whose only extra hypothesis is "not a lifecycle hook". The model is compared with real '
              'generated Process classes after every event-loop callback (outermost and nested loops), over all interleavings of small '
@@ -151,7 +155,8 @@ CLAIMED = {
         note='Modelled, not verified: contextvars context copy at task creation, asyncio scheduling, nest_asyncio re-entrancy '
              '(assumed contracts stated in the model, exercised through the real libraries); Process.step/transition_to hook order '
              '(hand-written mirror, differential check on every sample of Process.current() and PROCESS_STACK). pause/play and '
-             'faults inside callbacks are outside this model (C03-C05); cancelling a task that is itself inside a nested execute() is not '
+             'the fail() that the default callback_excepted performs are outside this model (C03-C05: the generated classes override that hook to '
+             'sample only); cancelling a task that is itself inside a nested execute() is not '
              'modelled (it is running, not suspended).',
         technique='Lean 4 invariant proof over an interleaving task/stack machine + differential correspondence on a deterministic '
                   're-entrant event loop',
